@@ -201,14 +201,15 @@ func vLexLE(a, b weight) bool {
 //@   ensures[number] !in(v.String, "normal", "bold", "bolder", "lighter") ==> out == v.Int
 
 // the initial font-weight is 400 (checked natively: the table of initial values is built by init)
-//@ bounded vInitialFontWeight the initial value of font-weight is 400 (one case, exhaustive)
-//@   props C04
 func vInitialFontWeight() (int, []string) {
 	if w := pr.InitialValues.GetFontWeight(); w.Int != 400 || w.String != "" {
 		return 1, []string{"initial font-weight is not 400"}
 	}
 	return 1, nil
 }
+
+//@ bounded vInitialFontWeight the initial value of font-weight is 400 (one case, exhaustive)
+//@   props C04
 
 //@ func asPixels
 //@   props C04
